@@ -2339,7 +2339,11 @@ impl ModuleGraph {
       },
     );
     for (specifier, fast_check_module_result) in modules {
-      let module_slot = self.module_slots.get_mut(&specifier).unwrap();
+      // an export of a workspace member that is not part of this graph gets
+      // an "export not found" diagnostic but has no entry to attach it to
+      let Some(module_slot) = self.module_slots.get_mut(&specifier) else {
+        continue;
+      };
       let module = match module_slot {
         ModuleSlot::Module(m) => match m {
           Module::Js(m) => m,
